@@ -311,6 +311,16 @@ def unary_cases(ctx):
              ('floor', (True, 5, -1)), ('ceiling', (True, 5, -1)), ('floor', (True, 1, -6176)), ('ceiling', (False, 1, -6176)),
              ('sqrt', (False, 0, 0)), ('sqrt', (True, 1, 0)), ('sqrt', (False, 2, 0)), ('sqrt', (False, 1, -6176)), ('sqrt', (False, 10 ** 34 - 1, 6111)),
              ('neg', (False, 0, -2)), ('abs', (True, 0, 3))]
+    # parity of full-precision integers and near-integers: odd and even coefficients of 33 and 34 digits at exponent 0, the same with fraction
+    # zeros and with a final fraction digit, the ends of the range (seeded change C02_e: parity decided on a rounded half)
+    for op in ('even', 'odd'):
+        for c in (10 ** 34 - 1, 10 ** 34 - 2, 2 * 10 ** 33 + 1, 2 * 10 ** 33, 10 ** 33 + 1, 10 ** 33, 5 * 10 ** 33 + 5, 19999999999999999999999999999999999 // 10 * 10 + 7,
+                  9999999999999999999999999999999, 1234567890123456789012345678901235):
+            c = min(c, 10 ** 34 - 1)
+            for neg in (False, True):
+                fixed.append((op, (neg, c, 0)))
+        fixed += [(op, (False, 2 * 10 ** 33 + 1, -33)), (op, (False, 2 * 10 ** 33, -33)), (op, (False, 1, -6176)), (op, (False, 2, -6176)), (op, (False, 10 ** 33 + 1, -1)),
+                  (op, (False, 10 ** 34 - 1, 1)), (op, (False, 10 ** 34 - 1, 6111))]
     for op, a in fixed:
         out.append((op, a, None, 'fixed'))
     for _ in range(500 * n):
